@@ -1,6 +1,7 @@
 import Driver.Json
 import Driver.Framing
 import Driver.Mux
+import Driver.Store
 open Lean Drv
 
 def dispatch (cmd : String) (j : Json) : Except String Json :=
@@ -15,6 +16,7 @@ def dispatch (cmd : String) (j : Json) : Except String Json :=
   | "local" => cmdLocal j
   | "wf" => cmdWf j
   | "sort" => cmdSort j
+  | "store" => cmdStore j
   | _ => throw "bad-case"
 
 def handleLine (line : String) : String :=
